@@ -1426,9 +1426,10 @@ ENDP_SRC = "src/endpoints/core.c"
 ENDP_TIE = {
     "sink_adapt": "Ufw.Tie.EndpFns.SinkAdapt", "source_adapt": "Ufw.Tie.EndpFns.SourceAdapt",
     "sink_put_chunk": "Ufw.Tie.EndpFns.SinkPutChunk", "source_get_chunk": "Ufw.Tie.EndpFns.SourceGetChunk",
+    "sts_cbc": "Ufw.Tie.EndpFns.StsCbc", "sts_drain_cbc": "Ufw.Tie.EndpFns.StsLoops",
 }
 ENDP_WANT = ["source_get_octet", "sink_put_octet", "source_adapt", "sink_adapt", "once_source_get_chunk", "once_sink_put_chunk",
-             "source_get_chunk", "sink_put_chunk", "source_get_chunk_atmost", "sink_put_chunk_atmost"]
+             "source_get_chunk", "sink_put_chunk", "source_get_chunk_atmost", "sink_put_chunk_atmost", "sts_cbc", "sts_n_cbc", "sts_drain_cbc"]
 ENDP_STATUS = {}
 
 
@@ -1442,7 +1443,9 @@ def endp_gen():
 
 
 def endp_tie_modules():
-    return ["Ufw.Tie.EndpFns.Common"] + [m for f, m in ENDP_TIE.items() if ENDP_STATUS.get(f) == "translated"]
+    # StsLoops holds the obligations of sts_drain_cbc and sts_n_cbc: both have to be there
+    ok = lambda f: ENDP_STATUS.get(f) == "translated"
+    return ["Ufw.Tie.EndpFns.Common"] + [m for f, m in ENDP_TIE.items() if ok(f) and (f != "sts_drain_cbc" or ok("sts_n_cbc"))]
 
 
 if __name__ == "__main__":
